@@ -32,6 +32,7 @@ Definition field_name (f : field) : str :=
   | F_platform => s_[112;108;97;116;102;111;114;109]
   | F_libraries => s_[108;105;98;114;97;114;105;101;115]
   | F_filePath => s_[102;105;108;101;80;97;116;104]
+  | F_getMaxConfigs => s_[103;101;116;77;97;120;67;111;110;102;105;103;115]
   end.
 
 (* options from the renderings of all_fields, in that order *)
